@@ -661,7 +661,8 @@ class Function(ValueNode):
     @func.setter
     def func(self, function_handle):
         self._func = function_handle
-        self._stale = True
+        # parents hold values computed with the old function
+        self.mark_for_update()
 
     @ValueNode.value.setter
     def value(self, value):
